@@ -257,6 +257,7 @@ type Monitor struct {
 type MonEntry struct {
 	Tag   int
 	Write bool
+	Exit  bool
 }
 
 func (m *Monitor) sync(s *sched) {
@@ -282,12 +283,12 @@ func (m *Monitor) Enter(write bool, tag int) {
 	} else {
 		m.readers++
 	}
-	m.Log = append(m.Log, MonEntry{tag, write})
+	m.Log = append(m.Log, MonEntry{tag, write, false})
 	s.event(s.cur, opMonitor, s.obj(unsafe.Pointer(m)), !write, 0)
 }
 
 // Exit ends a section.
-func (m *Monitor) Exit(write bool) {
+func (m *Monitor) Exit(write bool, tag ...int) {
 	s := cur()
 	if s == nil || s.inert() {
 		return
@@ -298,6 +299,9 @@ func (m *Monitor) Exit(write bool) {
 		m.writers--
 	} else {
 		m.readers--
+	}
+	if len(tag) > 0 {
+		m.Log = append(m.Log, MonEntry{tag[0], write, true})
 	}
 	s.event(s.cur, opMonitor, s.obj(unsafe.Pointer(m)), !write, 1)
 }
